@@ -93,6 +93,8 @@ pub struct R1csCase<G: AffineRepr> {
     pub muts: Vec<Mutation<G::ScalarField>>,
     /// dishonest prover through hook H4: coefficient vectors of the points published as (A_I2, A_O2, S2)
     pub forge: Option<[Vec<G::ScalarField>; 3]>,
+    /// party_capacity of both generator objects (only party 0 is ever used by R1CS)
+    pub parties: usize,
     pub tag: String,
     pub model: bool,
 }
@@ -110,6 +112,7 @@ impl<G: AffineRepr> R1csCase<G> {
             ext_seed,
             forced: vec![],
             forge: None,
+            parties: 1,
             vlabel: b"verif-case",
             vprog: None,
             vcommit: vec![],
@@ -245,8 +248,8 @@ pub fn run_case<G: AffineRepr>(c: &R1csCase<G>, curve: &str, modulus: &str) -> C
     let cap_basis = c.cap_p.max(c.cap_v).max(1);
     let basis = make_basis::<G>(cap_basis, c.extra);
     let pc = PedersenGens::<G>::default();
-    let bp_p = BulletproofGens::<G>::new(c.cap_p, 1);
-    let bp_v = BulletproofGens::<G>::new(c.cap_v, 1);
+    let bp_p = BulletproofGens::<G>::new(c.cap_p, c.parties);
+    let bp_v = BulletproofGens::<G>::new(c.cap_v, c.parties);
     if let Some(f) = &c.forge {
         let enc = |co: &Vec<F<G>>| { let mut b = vec![]; msm_coeffs(&basis.pts, co).serialize_compressed(&mut b).unwrap(); b };
         ark_bulletproofs::verif_hooks::set_phase2_override(Some([enc(&f[0]), enc(&f[1]), enc(&f[2])]));
@@ -354,6 +357,13 @@ pub fn run_case<G: AffineRepr>(c: &R1csCase<G>, curve: &str, modulus: &str) -> C
     }
     // Coq term
     let mut coq = String::new();
+    if !c.model && c.tag.starts_with("capgrid") {
+        let class = match pcode { 0 => 0, 3 => 3, 99 => 9, x => x };
+        let _ = writeln!(obs.borrow_mut(), "{} 19 {}", id, class);
+        let tv = |k: &str| -> usize { c.tag.split_whitespace().find_map(|t| t.strip_prefix(k)).and_then(|v| v.parse().ok()).unwrap_or(0) };
+        let (n1, n2) = (tv("n1="), tv("n2="));
+        coq = format!("Eval vm_compute in [[19%Z; prove_class {} {} {} {}]].\n", c.parties, c.cap_p, n1, n1 + n2);
+    }
     if !c.model {
         let obs = obs.into_inner();
         return CaseOut { coq, obs, summary, vproof: out_vproof, commitments: out_commitments, chal_v, verdict: out_verdict };
@@ -419,7 +429,7 @@ pub fn gen_cases<G: AffineRepr>(seed: u64, tier: &str, stream: &str, curve_idx: 
         ("mutfields", false) => 36,
         ("mutfields", true) => 72,
         ("violate", false) => 16,
-        ("statement", false) => 32,
+        ("statement", false) => 38,
         ("forge", false) => 16,
         ("mutsmall", false) => 32,
         ("mutsmall", true) => 64,
@@ -461,6 +471,26 @@ pub fn gen_cases<G: AffineRepr>(seed: u64, tier: &str, stream: &str, curve_idx: 
                             break;
                         }
                     }
+                }
+                if k % 8 == 2 {
+                    // targeted: an allocation left unpaired at the end of one closure is completed by the next closure
+                    // (the pending gate is cleared at the phase switch only), with multipliers_len() read in between
+                    let pre = rng.gen_range(0..3);
+                    let mut prog: Vec<COp<F<G>>> = vec![];
+                    for _ in 0..pre { prog.push(COp::AllocMul(Some((F::<G>::rand(&mut rng), F::<G>::rand(&mut rng))))); }
+                    if rng.gen() { prog.push(COp::Alloc(Some(F::<G>::rand(&mut rng)))); }
+                    let mut b1 = vec![ROp::Chal(LABELS[0]), ROp::Len];
+                    for _ in 0..(1 + 2 * rng.gen_range(0..2)) { b1.push(ROp::Alloc(Some(Sx::C(F::<G>::rand(&mut rng))))); }
+                    b1.push(ROp::Len);
+                    let mut b2 = vec![ROp::Len, ROp::Alloc(Some(Sx::C(F::<G>::rand(&mut rng)))), ROp::Len];
+                    if rng.gen() { b2.push(ROp::Alloc(Some(Sx::C(F::<G>::rand(&mut rng))))); b2.push(ROp::Len); }
+                    prog.push(COp::Randomize(b1));
+                    prog.push(COp::Randomize(b2));
+                    if rng.gen() { prog.push(COp::Randomize(vec![ROp::Alloc(Some(Sx::C(F::<G>::rand(&mut rng)))), ROp::Len])); }
+                    prog.push(COp::Len);
+                    g.prog = prog;
+                    g.n1 = pre + 1;
+                    g.n2 = 6;
                 }
                 let n = (g.n1 + g.n2 + 2).next_power_of_two().max(1);
                 let mut c = R1csCase::plain(id, g.prog, n, n, rng.gen());
@@ -582,7 +612,7 @@ pub fn gen_cases<G: AffineRepr>(seed: u64, tier: &str, stream: &str, curve_idx: 
             }
             // statement / context deviations on the verifier side (C05): the proof is honest, the verifier's statement is not the prover's
             "statement" => {
-                let kinds = 16;
+                let kinds = 19;
                 let kind = k % kinds;
                 let sh = Shape { commits: 2 + rng.gen_range(0..2), ops1: 1 + rng.gen_range(0..3), closures: if k % 3 == 0 { 1 } else { 0 }, ops2: 1 + rng.gen_range(0..3), allow_missing: false };
                 let mut g = gen_program::<F<G>>(&mut rng, &sh);
@@ -639,9 +669,26 @@ pub fn gen_cases<G: AffineRepr>(seed: u64, tier: &str, stream: &str, curve_idx: 
                         if kind == 13 { vcommit.push(Some(coeffs(-F::<G>::from(9u64), -F::<G>::from(11u64)))); name = "negated-unused-commitment".into(); }
                         else { vcommit.push(Some(coeffs(F::<G>::from(9u64), F::<G>::from(12u64)))); name = "different-unused-commitment".into(); }
                     }
+                    15 => {
+                        // the verifier's statement lists a bit-identical copy of an existing commitment once more
+                        vprog.push(COp::Commit(vals[1].1, vals[1].2));
+                        vcommit.push(Some(coeffs(vals[1].1, vals[1].2)));
+                        name = "duplicate-extra-commitment".into();
+                    }
+                    16 => {
+                        // the prover's statement ends with a copy of an existing commitment, the verifier's does not
+                        c.prog.push(COp::Commit(vals[1].1, vals[1].2));
+                        name = "missing-duplicate-commitment".into();
+                    }
+                    17 => {
+                        // a term-less constraint (0 = 0) in front of the verifier's constraints: every later constraint moves up one power of z
+                        let pos = vprog.iter().position(|o| matches!(o, COp::Constrain(_))).unwrap_or(vprog.len());
+                        vprog.insert(pos, COp::Constrain(vec![]));
+                        name = "extra-empty-constraint".into();
+                    }
                     _ => { name = "none".into(); }
                 }
-                if kind == 4 {
+                if kind == 4 || kind == 16 {
                     // verifier program = the original one (without the extra commitment)
                     c.vprog = Some(g.prog.clone());
                 } else {
@@ -720,6 +767,21 @@ pub fn gen_cases<G: AffineRepr>(seed: u64, tier: &str, stream: &str, curve_idx: 
                         let ext: u64 = prng.gen();
                         for &cp in &caps {
                             let cvs: Vec<usize> = if cp >= pn { caps.clone() } else { vec![pn] };
+                            // a second and third party must not change anything: only party 0's vectors are used
+                            if cp > 0 && (cp < pn || cp == pn) {
+                                for parties in [2usize, 3] {
+                                    let mut cvs2: Vec<usize> = vec![pn];
+                                    if cp == pn { if let Some(&low) = caps.iter().filter(|&&x| x > 0 && x < pn).last() { cvs2.push(low); } }
+                                    for cv in cvs2 {
+                                        let mut c = R1csCase::plain(format!("c_capgrid_{}_{}", curve_idx, idx), prog.clone(), cp, cv, ext);
+                                        c.parties = parties;
+                                        c.model = false;
+                                        c.tag = format!("capgrid n1={} n2={} pn={} capp={} capv={} parties={} grp={}_{}", n1, n2, pn, cp, cv, parties, n1, n2);
+                                        out.push(c);
+                                        idx += 1;
+                                    }
+                                }
+                            }
                             for &cv in &cvs {
                                 let mut c = R1csCase::plain(format!("c_capgrid_{}_{}", curve_idx, idx), prog.clone(), cp, cv, ext);
                                 // the model evaluates the boundary cases; the rest of the grid runs on the real code only
